@@ -650,7 +650,7 @@ def stream_malformed(g: G, r, n):
             if f in g.special_funcs:
                 continue
             args = [random_expr(g, r, 1) for _ in range(r.choice((0, 1, 2, 3, 4)))]
-            kw = [(r.choice(USER_NAMES), random_expr(g, r, 0))] if r.random() < 0.3 else []
+            kw = [(r.choice(['a', 'b', 'x', 'y', 'name', 'cost']), random_expr(g, r, 0))] if r.random() < 0.3 else []
             yield ('malformed', g.call(f, args, kw))
         elif k < 0.7:    # heterogeneous sets / arrays
             els = [random_expr(g, r, 1) for _ in range(r.choice((2, 3)))]
